@@ -674,7 +674,8 @@ func canonicalUnicodeCatName(catName string) (string, bool) {
 	}
 
 	normalized := normalizeUnicodeCategoryAlias(catName)
-	if canonical, ok := unicodeSupportedPropertyAliases[normalized]; ok {
+	// enumerated properties (Word_Break, ...) are only usable as Prop=Value, they have no table of their own
+	if canonical, ok := unicodeSupportedPropertyAliases[normalized]; ok && unicodeCategories[canonical] != nil {
 		return canonical, true
 	}
 	if canonical, ok := unicodeBarePropertyValueAliases[normalized]; ok {
